@@ -24,8 +24,10 @@
                        false: listed finding F-C09-hsm-retrigger-exit); everything else about the
                        hierarchical classes is decided by the differential (harness/props/c09.py).
 
-  and, over the table that `harness/extract_tables.py` regenerates from the LIVE classes before every
-  build (`Generated/Tables.lean`), by `decide`:
+  and, in `Props/C09Tables.lean` (a module of its own, built by the C09 check only, so that a change of
+  the live classes can break no other property's build), over the table that
+  `harness/extract_tables.py` regenerates from the LIVE classes before every build
+  (`Generated/Tables.lean`), by `decide`:
 
     `C09_factory_exact`    the factory returns, for each of the 12 supported feature tuples, a class whose
                            `issubclass` flags are exactly the tuple (distinct classes for distinct tuples),
@@ -35,88 +37,16 @@
     `C09_ctor_compatible`  every class takes Machine's constructor parameters, in order, with Machine's
                            defaults (a "base configuration" means the same thing in all of them).
 
-  When the live classes change so that one of the `decide`s fails, this module no longer builds: the
-  harness treats that as a broken proof obligation, evaluates the same predicates on the live classes
-  and reports the offending tuple / class (harness/props/c09.py `table_failures`).
+  When the live classes change so that one of the `decide`s fails, `Props/C09Tables.lean` no longer
+  builds: the harness treats that as a broken proof obligation, evaluates the same predicates on the
+  live classes and reports the offending tuple / class (harness/props/c09.py `table_failures`).
 -/
-import Generated.Tables
 import Proofs.C09
 import Proofs.C09Locked
 import Props.C07
 import Proofs.C09Hsm
 
 namespace TM
-open Gen
-
-/-! ## the factory table (generated from the live classes) -/
-
-/-- the supported combinations: everything but locked + asyncio -/
-def Gen.supported (f : Feat) : Bool := !(f.locked && f.async)
-
-/-- the family each composition needs.  State and event/transition classes follow `nested` and
-`asyncio`; `LockedEvent` is used by the flat locked classes only (`LockedHierarchicalMachine` sets
-`event_cls = NestedEvent` and locks through `_locked_method` on `trigger_event`);
-`TransitionGraphSupport` is mixed into the synchronous graph classes only (the async transition
-classes carry the graph hook inline: `if hasattr(machine, "model_graphs")`). -/
-def Gen.expectedState (f : Feat) : Kind :=
-  match f.nested, f.async with
-  | false, false => ⟨"State", false, false, false⟩
-  | true, false => ⟨"NestedState", true, false, false⟩
-  | false, true => ⟨"AsyncState", false, true, false⟩
-  | true, true => ⟨"NestedAsyncState", true, true, false⟩
-
-def Gen.expectedEvent (f : Feat) : Kind :=
-  match f.nested, f.async, f.locked with
-  | false, false, false => ⟨"Event", false, false, false⟩
-  | false, false, true => ⟨"LockedEvent", false, false, true⟩
-  | true, false, _ => ⟨"NestedEvent", true, false, false⟩
-  | false, true, _ => ⟨"AsyncEvent", false, true, false⟩
-  | true, true, _ => ⟨"NestedAsyncEvent", true, true, false⟩
-
-def Gen.expectedTrans (f : Feat) : Kind :=
-  match f.nested, f.async, f.graph with
-  | false, false, false => ⟨"Transition", false, false, false⟩
-  | false, false, true => ⟨"TransitionGraphSupport", false, false, true⟩
-  | true, false, false => ⟨"NestedTransition", true, false, false⟩
-  | true, false, true => ⟨"NestedGraphTransition", true, false, true⟩
-  | false, true, _ => ⟨"AsyncTransition", false, true, false⟩
-  | true, true, _ => ⟨"NestedAsyncTransition", true, true, false⟩
-
-/-- **The factory returns a class with exactly the requested features, or raises ValueError.**
-For every feature tuple: when it is supported (not locked + asyncio) the factory's answer is a class
-of the table whose `issubclass` flags against GraphMachine / HierarchicalMachine / LockedMachine /
-AsyncMachine ARE the tuple; otherwise the answer is ValueError.  (16 rows, all distinct tuples; the
-12 classes are pairwise distinct because their flags are.) -/
-theorem C09_factory_exact :
-    factory.length = 16 ∧ (factory.map (·.1)).Nodup ∧ (classes.map (·.name)).Nodup ∧
-    ∀ f : Feat,
-      (supported f = true → ∃ r ∈ classes, factory.lookup f = some (.cls r.name) ∧ r.feat = f) ∧
-      (supported f = false → factory.lookup f = some .valueError) := by
-  refine ⟨by decide, by decide, by decide, ?_⟩
-  intro ⟨g, n, l, a⟩
-  cases g <;> cases n <;> cases l <;> cases a <;> decide
-
-/-- **Every class resolves its state / event / transition classes to the family its composition
-needs** (name and `issubclass` flags), and is a MarkupMachine exactly when it has diagram support. -/
-theorem C09_cls_triples :
-    classes.length = 12 ∧
-    ∀ r ∈ classes,
-      r.stateCls = expectedState r.feat ∧ r.eventCls = expectedEvent r.feat ∧
-      r.transCls = expectedTrans r.feat ∧ r.markup = r.feat.graph ∧ supported r.feat = true := by
-  decide
-
-/-- `Machine.__init__`'s parameters (without the trailing `**kwargs`) -/
-def Gen.machineParams : List (String × String) :=
-  match lookupClass classes "Machine" with
-  | some r => r.ctor.dropLast
-  | none => []
-
-/-- **Every class accepts Machine's constructor parameters, in the same order, with the same
-defaults**, and forwards unknown keywords (`**kwargs`). -/
-theorem C09_ctor_compatible :
-    machineParams.length = 18 ∧
-    ∀ r ∈ classes, machineParams.isPrefixOf r.ctor = true ∧ r.ctor.getLast? = some ("**kwargs", "") := by
-  decide
 
 /-! ## diagram and markup support: a side table the engine never reads -/
 
